@@ -648,15 +648,28 @@ func (a *Assembler) AssembleWithContext(netFlow gopacket.Flow, t *layers.TCP, ac
 	ci := ac.GetCaptureInfo()
 	timestamp := ci.Timestamp
 
-	conn, half, rev = a.connPool.getConnection(key, false, timestamp, t, ac)
-	if conn == nil {
-		if *debugLog {
-			log.Printf("%v got empty packet on otherwise empty connection", key)
+	// This loop handles the case where, between the lookup and the lock, the
+	// connection is closed, removed and its object handed out again for
+	// another connection.
+	for {
+		conn, half, rev = a.connPool.getConnection(key, false, timestamp, t, ac)
+		if conn == nil {
+			if *debugLog {
+				log.Printf("%v got empty packet on otherwise empty connection", key)
+			}
+			return
 		}
-		return
+		verifYieldM(7, &conn.mu)
+		conn.mu.Lock()
+		if conn.key == key {
+			half, rev = &conn.c2s, &conn.s2c
+			break
+		} else if conn.key == key.Reverse() {
+			half, rev = &conn.s2c, &conn.c2s
+			break
+		}
+		conn.mu.Unlock()
 	}
-	verifYieldM(7, &conn.mu)
-	conn.mu.Lock()
 	defer conn.mu.Unlock()
 	if half.lastSeen.Before(timestamp) {
 		half.lastSeen = timestamp
